@@ -442,7 +442,7 @@ def big_cases(ctx, loop, rng, n):
 
 def run(ctx):
     rng = ctx.rng
-    scale = 6 if ctx.thorough else 1
+    scale = 4 if ctx.thorough else 1
     ctx.rule = ("seeded generator (random.Random('C27-<seed>')): mode in r/r+/w/w+/a/a+/x (x = paramiko 'wx'; bare "
                 "'x' in the undisciplined stream), bufsize in {-1,0,1,2..65536}, pipelined on/off, existing or "
                 "missing file with 0..60 bytes over newline-dense / binary alphabets, programs of 1..40 calls from "
